@@ -292,7 +292,51 @@ func OpBegin() {
 // evaluations on the calling goroutine). cap==0 disarms it.
 //
 //go:norace
-func RefMode(cap uint64) { s.refCap = cap; s.refSteps = 0 }
+func RefMode(cap uint64) {
+	Quiesce()
+	s.refCap = cap
+	s.refSteps = 0
+}
+
+// Quiesce waits (up to 2 s) until the real goroutines that the library started during an
+// earlier call outside a run have finished: one that is still winding down when a run
+// begins would execute yield points as if it were the running client.
+func Quiesce() {
+	if RealSpawned == nil || RealSpawned() == 0 {
+		return
+	}
+	deadline := time.Now().Add(2 * time.Second)
+	for RealSpawned() > 0 && time.Now().Before(deadline) {
+		runtime.Gosched()
+		if RealSpawned() > 0 {
+			time.Sleep(20 * time.Microsecond)
+		}
+	}
+	if RealSpawned() > 0 {
+		LeakedReal++
+	}
+}
+
+// mainGID is the goroutine that drives the harness (library calls outside a run are made
+// on it); curGID parses the running goroutine's id out of runtime.Stack (slow: only used
+// once a reference budget is spent while library goroutines are alive).
+var mainGID = curGID()
+
+func curGID() uint64 {
+	var buf [64]byte
+	n := runtime.Stack(buf[:], false)
+	var id uint64
+	for _, c := range buf[len("goroutine "):n] {
+		if c < '0' || c > '9' {
+			break
+		}
+		id = id*10 + uint64(c-'0')
+	}
+	return id
+}
+
+// LeakedReal counts calls after which a real library goroutine was still alive 2 s later.
+var LeakedReal uint64
 
 // RefSteps returns the steps counted since the last OpBegin outside a run.
 //
@@ -322,6 +366,12 @@ func Yield(site int) {
 		}
 		s.refSteps++
 		if s.refCap != 0 && s.refSteps > s.refCap {
+			if RealSpawned != nil && RealSpawned() > 0 && curGID() != mainGID {
+				// a goroutine the library started: the budget is the caller's, who finds
+				// it spent at its own next step; unwinding this goroutine instead would
+				// leave the caller waiting for it for ever
+				return
+			}
 			s.refSteps = 0
 			panic(StepCapExceeded{})
 		}
@@ -828,6 +878,7 @@ func Run(cfg *Config, bodies []func()) *Outcome {
 	if s.active {
 		panic("simrt: nested Run")
 	}
+	Quiesce()
 	setup(cfg, n)
 	for i := 0; i < n; i++ {
 		go clientMain(i, bodies[i])
